@@ -25,7 +25,7 @@ from harness.common import Run, SRC, coq_string
 
 HEADER = """(* REGENERATED on every run from $VERIF_REPO/src/leaspy by harness/translate/c20_bench.py — do not edit *)
 From Coq Require Import String QArith List Bool Arith.
-From Leaspy Require Import Base.QAux Api.Bench Api.BenchNumpy.
+From Leaspy Require Import Base.QAux Api.Bench Api.BenchNumpy Api.BenchFit.
 Import ListNotations.
 Open Scope Q_scope.
 """
@@ -90,16 +90,27 @@ class Exec:
         self.methods = methods or {}          # dotted call name -> (FunctionDef)  (inlined)
         self.k = k
         self.d = d
-        self.div_err = div_err or {}          # source text of a divisor -> error constructor
+        self.div_err = div_err if div_err is not None else {}          # source text of a divisor -> error constructor
         self.guards = guards                  # source of `if <test>: raise` statements that are preconditions
         self.lines: list[tuple[str, str, str]] = []   # ("let" | "bind", name, text)
         self.n = 0
+        self.taken: set[str] = set()
         self.preconditions: list[str] = []
 
     # ---- emission
     def fresh(self, hint="x"):
         self.n += 1
+        self.taken.add(f"{hint}{self.n}")
         return f"{hint}{self.n}"
+
+    def name_for(self, ident: str) -> str:
+        """a Coq name for a python local: never shadows an earlier binding (python rebinding /= Gallina shadowing of texts already built)"""
+        name, i = ident, 1
+        while name in self.taken:
+            i += 1
+            name = f"{ident}_{i}"
+        self.taken.add(name)
+        return name
 
     def bind(self, v: Val, hint="x") -> Val:
         """v.ty == 'res:T' -> a bound variable of type T"""
@@ -117,6 +128,7 @@ class Exec:
 
     # ---- statements
     def run(self, fn, env) -> Val:
+        self.taken |= {v.tx for v in env.values() if v.tx.isidentifier()}
         return self.block([s for s in fn.body if not _is_doc(s)], dict(env))
 
     def block(self, stmts, env):
@@ -145,11 +157,12 @@ class Exec:
             if v.ty.startswith("res:"):
                 v = self.bind(v, target.id)
                 env[target.id] = v
-            elif v.ty in ("Tuple", "Dict", "Range", "Static") or v.tx == target.id:
+            elif v.ty in ("Tuple", "Dict", "Range", "Static", "Mask", "MaskTab", "Shape", "Ignored") or v.tx == target.id:
                 env[target.id] = v
             else:
-                self.lines.append(("let", target.id, v.tx))
-                env[target.id] = Val(v.ty, target.id, dict(v.x))
+                name = self.name_for(target.id)
+                self.lines.append(("let", name, v.tx))
+                env[target.id] = Val(v.ty, name, dict(v.x))
             return
         if isinstance(target, ast.Tuple) and v.ty == "Tuple" and len(target.elts) == len(v.x["items"]):
             for t, item in zip(target.elts, v.x["items"]):
@@ -190,6 +203,8 @@ class Exec:
                 return Val("Int", str(node.value), dict(value=node.value))
             if isinstance(node.value, str):
                 return Val("Str", coq_string(node.value), dict(value=node.value))
+            if isinstance(node.value, float):
+                return Val("Float", src, dict(value=node.value))
             raise Untranslatable(f"constant {src}")
         if isinstance(node, ast.Tuple):
             return Val("Tuple", x=dict(items=[self.ev(e, env) for e in node.elts]))
@@ -421,7 +436,7 @@ class Exec:
             return Val("MatKK", f"np_add_kk_{kk} {paren(a.tx)} {paren(b.tx)}", dict(k=kk))
         if op == "Add" and a.ty == "VecK" and b.ty == "VecK" and k == 2:
             return Val("VecK", f"np_add_k_2 {paren(a.tx)} {paren(b.tx)}", dict(k=2))
-        if op == "Pow" and a.ty == "Q" and bsrc == "0.5":
+        if op == "Pow" and a.ty == "Q" and b.ty == "Float" and b.x["value"] == 0.5:
             return Val("Sqrt0d", a.tx)
         raise Untranslatable(f"operator {op} on {a.ty}, {b.ty}")
 
@@ -478,12 +493,207 @@ def gen_constant_trajectory(tree) -> str:
             + "\n".join(f"  let {n} := {t} in" for _, n, t in ex.lines) + f"\n  {out.tx}.\n")
 
 
+# ------------------------------------------------------------------------------------------------- (c) (e) LME
+
+def _div_label(src: str) -> str:
+    """error constructor given to a zero divisor (numpy returns non-finite numbers there, the model an explicit error)"""
+    return "ZeroScale" if "ages_std" in src else "Singular"
+
+
+class _Labels(dict):
+    def __contains__(self, k):
+        return True
+
+    def __getitem__(self, k):
+        return _div_label(k)
+
+
+def _lme_params(prefix: str, slope: bool) -> dict:
+    cov = Val("MatKK", "cov_inv p", dict(k=2)) if slope else Val("MatKK", "m11 (cov_inv p)", dict(k=1))
+    return {f"{prefix}.parameters['ages_mean']": Val("Q", "ages_mean p"),
+            f"{prefix}.parameters['ages_std']": Val("Q", "ages_std p"),
+            f"{prefix}.parameters['fe_params']": Val("VecK", "(fe0 p, fe1 p)", dict(k=2)),
+            f"{prefix}.parameters['cov_re_unscaled_inv']": cov}
+
+
+def _dict_text(v: Val) -> str:
+    if v.ty != "Dict" or not all(x.ty == "Q" for x in v.x["values"]):
+        raise Untranslatable("individual parameters are not a dict of numbers")
+    return "[" + "; ".join(f"({coq_string(k)}, {x.tx})" for k, x in zip(v.x["keys"], v.x["values"])) + "]"
+
+
+def gen_lme_personalize(tree) -> str:
+    cls = _cls(tree, "LMEPersonalizeAlgorithm")
+    fn = _meth(cls, "_get_individual_random_effects_and_residuals")
+    if _params(fn) != ["model", "times", "values"]:
+        raise Untranslatable(f"_get_individual_random_effects_and_residuals{_params(fn)}")
+    methods = {"cls._remove_nans": _meth(cls, "_remove_nans"), "cls._generic_get_random_effects": _meth(cls, "_generic_get_random_effects")}
+    arms = {}
+    for slope in (False, True):
+        ex = Exec(statics={"model.with_random_slope_age": slope}, subscripts=_lme_params("model", slope), methods=methods, k=2, div_err=_Labels())
+        out = ex.run(fn, dict(times=Val("VecN", "times"), values=Val("ColV", "values")))
+        if out.ty != "Tuple" or len(out.x["items"]) != 2 or out.x["items"][1].ty != "VecN":
+            raise Untranslatable("_get_individual_random_effects_and_residuals does not return (dict, residuals)")
+        d = out.x["items"][0]
+        want = ["random_intercept", "random_slope_age"] if slope else ["random_intercept"]
+        if d.ty != "Dict" or d.x["keys"] != want:
+            raise Untranslatable(f"individual parameters returned with random slope={slope}: {d.x.get('keys')}")
+        arms[slope] = ex.render(Val("Dict", _dict_text(d)), "    ")
+    out = ("(** LMEPersonalizeAlgorithm._get_individual_random_effects_and_residuals (first component of the result: the dict of\n"
+           "    individual parameters), [_remove_nans] and [_generic_get_random_effects] inlined; [obs] = (times, values[:, 0]) *)\n"
+           "Definition gen_lme_personalize (with_random_slope_age : bool) (p : lme_params) (obs : hist) : res (list (string * Q)) :=\n"
+           "  let times := map fst obs in\n  let values := map snd obs in\n"
+           f"  if with_random_slope_age then\n{arms[True]}\n  else\n{arms[False]}.\n")
+    # the generic formula alone, with two columns and with one
+    g = methods["cls._generic_get_random_effects"]
+    if _params(g) != ["resid", "Z", "cov_re_unscaled_inv"]:
+        raise Untranslatable(f"_generic_get_random_effects{_params(g)}")
+    for k, tz, tm, tv in ((2, "list (Q * Q)", "mat2", "Q * Q"), (1, "list Q", "Q", "Q")):
+        ex = Exec(k=k, div_err=_Labels())
+        r = ex.run(g, dict(resid=Val("VecN", "resid"), Z=Val("MatNK", "Z", dict(k=k)), cov_re_unscaled_inv=Val("MatKK", "cov_re_unscaled_inv", dict(k=k))))
+        if r.ty not in ("VecK", "res:VecK"):
+            raise Untranslatable(f"_generic_get_random_effects returns {r.ty}")
+        out += (f"\n(** LMEPersonalizeAlgorithm._generic_get_random_effects with k_re = {k} *)\n"
+                f"Definition gen_generic_re_{k} (resid : list Q) (Z : {tz}) (cov_re_unscaled_inv : {tm}) : res ({tv}) :=\n{ex.render(r)}.\n")
+    # the closed form of the random-intercept model alone
+    asg = [n for n in ast.walk(fn) if isinstance(n, ast.Assign) and _u(n.targets[0]) == "random_intercept"]
+    if len(asg) != 1:
+        raise Untranslatable("random_intercept is not assigned exactly once")
+    ex = Exec(k=1, div_err=_Labels())
+    r = ex.ev(asg[0].value, dict(residuals=Val("VecN", "residuals"), n=Val("Nat", "n"), cov_re_unscaled_inv=Val("MatKK", "cov_re_unscaled_inv", dict(k=1))))
+    if r.ty != "res:Q":
+        raise Untranslatable(f"random_intercept: {r.ty}")
+    out += ("\n(** the closed form written for the random-intercept model *)\n"
+            f"Definition gen_intercept_re (residuals : list Q) (n : nat) (cov_re_unscaled_inv : Q) : res Q :=\n{ex.render(r)}.\n")
+    return out
+
+
+def gen_lme_trajectory(tree) -> str:
+    fn = _meth(_cls(tree, "LMEModel"), "compute_individual_trajectory")
+    if _params(fn) != ["timepoints", "individual_parameters"]:
+        raise Untranslatable(f"LMEModel.compute_individual_trajectory{_params(fn)}")
+    arms = {}
+    for slope in (False, True):
+        subs = _lme_params("self", slope)
+        for key in ("random_intercept", "random_slope_age"):
+            subs[f"individual_parameters['{key}']"] = Val("res:Q", f"py_dict_get individual_parameters {coq_string(key)}")
+        ex = Exec(statics={"self.with_random_slope_age": slope}, subscripts=subs, k=2, div_err=_Labels())
+        r = ex.run(fn, dict(timepoints=Val("ListQ", "timepoints")))
+        if r.ty != "VecN":
+            raise Untranslatable(f"LMEModel.compute_individual_trajectory returns {r.ty}")
+        arms[slope] = ex.render(r, "    ")
+    return ("(** LMEModel.compute_individual_trajectory (the (1, n, 1) tensor as the list of its n values) *)\n"
+            "Definition gen_lme_trajectory (with_random_slope_age : bool) (p : lme_params) (individual_parameters : list (string * Q)) "
+            "(timepoints : list Q) : res (list Q) :=\n"
+            f"  if with_random_slope_age then\n{arms[True]}\n  else\n{arms[False]}.\n")
+
+
+# ------------------------------------------------------------------------------------------------- (d) LME fit
+
+FIT_FEED = [   # statements that only prepare statsmodels' input (normalised source); anything else there is a broken translation
+    "y = self._get_reformated(dataset, 'values')",
+    "subjects_with_repeat = self._get_reformated_subjects(dataset)",
+    "X = sm.add_constant(ages_norm, prepend=True, has_constant='add')",
+    "lme = MixedLM(y, X, subjects_with_repeat, exog_re, missing='raise')",
+    "fitted_lme = lme.fit(**self.sm_fit_parameters)",
+]
+FIT_KEYS = ["ages_mean", "ages_std", "fe_params", "cov_re", "cov_re_unscaled_inv", "noise_std", "bse_fe", "bse_re"]
+
+
+def gen_fit(tree) -> str:
+    fn = _meth(_cls(tree, "LMEFitAlgorithm"), "_run")
+    body = [s for s in fn.body if not _is_doc(s)]
+    out = ""
+    table = None
+    for k, tm in ((2, "mat2"), (1, "Q")):
+        attrs = {"fitted_lme.cov_re_unscaled": Val("MatKK", f"sm_cov_re_unscaled_{k} f", dict(k=k)),
+                 "fitted_lme.cov_re": Val("MatKK", "sm_cov_re f", dict(k=k)),
+                 "fitted_lme.fe_params": Val("VecK", "sm_fe f", dict(k=2)),
+                 "fitted_lme.scale": Val("Q", "sm_scale f"),
+                 "fitted_lme.bse_fe": Val("Ignored"), "fitted_lme.bse_re": Val("Ignored"),
+                 "self._get_reformated(dataset, 'timepoints')": Val("VecN", "ages")}
+        ex = Exec(attrs=attrs, k=k, div_err=_Labels())
+        env, seen, inv_tx, stored, fed = {}, [], None, None, []
+        for s in body:
+            src = _u(s)
+            if isinstance(s, ast.If) and _u(s.test) == "model.dimension != len(dataset.headers)" and len(s.body) == 1 and isinstance(s.body[0], ast.Raise):
+                seen.append("univariate")
+            elif isinstance(s, ast.Assign) and _u(s.targets[0]) in ("ages", "(ages_mean, ages_std)", "ages_norm"):
+                ex.assign(s.targets[0], ex.ev(s.value, env), env)
+                seen.append(_u(s.targets[0]))
+            elif src in FIT_FEED:
+                fed.append(src)
+            elif isinstance(s, ast.If) and _u(s.test) == "model.with_random_slope_age":
+                if not (s.body and _u(s.body[0]) == "exog_re = X" and len(s.orelse) == 1 and _u(s.orelse[0]) == "exog_re = None"
+                        and all(isinstance(b, ast.If) and _u(b.test) == "self.force_independent_random_effects" for b in s.body[1:])):
+                    raise Untranslatable("random-effects design: " + src[:120])
+                seen.append("exog_re")
+            elif isinstance(s, ast.Try):
+                if not (len(s.body) == 1 and isinstance(s.body[0], ast.Assign) and _u(s.body[0].targets[0]) == "cov_re_unscaled_inv"
+                        and len(s.handlers) == 1 and s.handlers[0].type is not None and _u(s.handlers[0].type) == "np.linalg.LinAlgError"
+                        and len(s.handlers[0].body) == 1 and isinstance(s.handlers[0].body[0], ast.Raise)
+                        and isinstance(s.handlers[0].body[0].exc, ast.Call) and _u(s.handlers[0].body[0].exc.func) == "LeaspyDataInputError"
+                        and not s.orelse and not s.finalbody):
+                    raise Untranslatable("the inversion is not `try: cov_re_unscaled_inv = ... except np.linalg.LinAlgError: raise LeaspyDataInputError`")
+                v = ex.ev(s.body[0].value, env)
+                if v.ty != "res:MatKK":
+                    raise Untranslatable(f"cov_re_unscaled_inv: {v.ty}")
+                inv_tx = v.tx
+                inv_src = _u(s.body[0].value)
+                env["cov_re_unscaled_inv"] = Val("MatKK", "cov_re_unscaled_inv", dict(k=k))
+                seen.append("inverse")
+            elif isinstance(s, ast.Assign) and _u(s.targets[0]) == "parameters" and isinstance(s.value, ast.Dict):
+                d = ex.ev(s.value, env)
+                if d.x["keys"] != FIT_KEYS:
+                    raise Untranslatable(f"stored keys: {d.x['keys']}")
+                stored = dict(zip(d.x["keys"], d.x["values"]))
+                table = [(kk, inv_src if _u(vv) == "cov_re_unscaled_inv" else
+                          {"ages_mean": _u(env_src["ages_mean"]), "ages_std": _u(env_src["ages_std"])}.get(_u(vv), _u(vv)))
+                         for kk, vv in zip(d.x["keys"], s.value.values)] if (env_src := _ages_sources(body)) else None
+                seen.append("parameters")
+            elif src == "model.load_parameters(parameters)":
+                seen.append("load")
+            elif src == "return (None, parameters['noise_std'])":
+                seen.append("return")
+            else:
+                raise Untranslatable(f"LMEFitAlgorithm._run: statement not recognised: {src[:120]}")
+        if seen != ["univariate", "ages", "(ages_mean, ages_std)", "ages_norm", "exog_re", "inverse", "parameters", "load", "return"] or fed != FIT_FEED:
+            raise Untranslatable(f"LMEFitAlgorithm._run: steps {seen} / {fed}")
+        want = dict(ages_mean="Q", ages_std="Sqrt0d", fe_params="VecK", cov_re="MatKK", cov_re_unscaled_inv="MatKK", noise_std="Sqrt0d",
+                    bse_fe="Ignored", bse_re="Ignored")
+        for kk, ty in want.items():
+            if stored[kk].ty != ty:
+                raise Untranslatable(f"stored parameter {kk}: {stored[kk].ty}, expected {ty}")
+        lets = "\n".join(f"  let {n} := {t} in" for kind, n, t in ex.lines if kind == "let")
+        if any(kind != "let" for kind, _, _ in ex.lines[:2]):
+            raise Untranslatable("normalisation constants are partial")
+        rec = (f"LmeStored {paren(stored['ages_mean'].tx)} {paren(stored['ages_std'].tx)} {paren(stored['fe_params'].tx)} "
+               f"{paren(stored['cov_re'].tx)} {paren(stored['cov_re_unscaled_inv'].tx)} {paren(stored['noise_std'].tx)}")
+        lets = "\n".join(f"  let {n} := {t} in" for kind, n, t in ex.lines if kind == "let" and n in ("ages", "ages_mean", "ages_std"))
+        out += (f"\n(** LMEFitAlgorithm._run, what is stored ({k} random effect{'s' if k == 2 else ''}); [ages_std], [noise_std] by their squares *)\n"
+                f"Definition gen_fit_store_{k} (ages : list Q) (f : sm_result {tm}) : fit_outcome {tm} :=\n{lets}\n"
+                f"  match {inv_tx} with\n  | Err _ => Refused\n  | Ok cov_re_unscaled_inv => Accepted ({rec})\n  end.\n")
+    out += ("\nDefinition gen_fit_table : list (string * string) :=\n  [" +
+            ";\n   ".join(f"({coq_string(a)}, {coq_string(b)})" for a, b in table) + "].\n")
+    return out
+
+
+def _ages_sources(body):
+    for s in body:
+        if isinstance(s, ast.Assign) and _u(s.targets[0]) == "(ages_mean, ages_std)" and isinstance(s.value, ast.Tuple) and len(s.value.elts) == 2:
+            return dict(ages_mean=s.value.elts[0], ages_std=s.value.elts[1])
+    raise Untranslatable("ages_mean, ages_std")
+
+
 # ------------------------------------------------------------------------------------------------- entry point
 
 def build() -> str:
     cp = ast.parse((SRC / "algo/personalize/constant_prediction_algo.py").read_text())
     cm = ast.parse((SRC / "models/constant.py").read_text())
-    parts = [HEADER, gen_feature_values(cp), gen_constant_trajectory(cm)]
+    lp = ast.parse((SRC / "algo/personalize/lme_personalize.py").read_text())
+    lm = ast.parse((SRC / "models/lme.py").read_text())
+    lf = ast.parse((SRC / "algo/fit/lme_fit.py").read_text())
+    parts = [HEADER, gen_feature_values(cp), gen_constant_trajectory(cm), gen_lme_personalize(lp), gen_lme_trajectory(lm), gen_fit(lf)]
     return "\n".join(parts)
 
 
